@@ -197,3 +197,25 @@ def run(ck, ctx):
               lt is I.global_value(tm, "mean_Tau_life"), lt, "eas.py",
               (lt.extra or {}).get("global", g.show(lt, 1)))
     ck.guard(constants, "R07.4")
+
+    # ---------------------------------------------------------------- R07.8 the decay stage sees the event's own values
+    def wiring():
+        """In the pipeline the decay altitude of an event is computed from ITS emergence angle, speed and Lorentz
+        factor: what compute() hands to the decay stage is, value for value, what the results table holds for the
+        event (an upstream stage that clamps or rescales the shared array in place breaks exactly this)."""
+        from .compute_graph import ComputeGraph
+        CG = ComputeGraph(ctx)
+        J, gj = CG.I, CG.I.g
+        n = 0
+        for callee, param, col in (("Taus.__call__", "betas", "beta_rad"), ("EAS.altDec", "beta", "beta_rad"),
+                                   ("EAS.altDec", "tauBeta", "tauBeta"), ("EAS.altDec", "tauLorentz", "tauLorentz")):
+            for fi, site, loc, v, pc in CG.calls(callee):
+                a = loc.get(param)
+                if a is None:
+                    continue
+                n += 1
+                ck.ob("R07.8", f"{callee}: the {param} it works on is the stored column {col} of the same events, "
+                      "unmodified between the stages", CG.col_matches(a, col), a, "compute",
+                      f"got {gj.show(J.res(a, CG.st), 2)}", construct=f"compute: {callee}({param}) vs column {col}")
+        ck.floor("R07.8", n, 4, "arguments of the tau and decay stages compared with the stored columns")
+    ck.guard(wiring, "R07.8")
